@@ -247,6 +247,16 @@ theorem C02_monotone (r : List Sample) (rs : List (List Sample))
       (fun q hq => h q (by simp [hq]))
     exact drainN_fresh_mono hm _ _ hf
 
+/-- **C02 for every function name `isCounter` accepts** (`rate`, `irate`, `increase`, `resets`) -/
+theorem C02_monotone_fn (f : String) (hf : f ∈ counterFuncs) (r : List Sample) (rs : List (List Sample))
+    (h : ∀ q ∈ r :: rs, MonoVals q) : MonoVals (drain (mkF true f r rs)) := by
+  have : isCounter f = true := by
+    unfold isCounter
+    exact List.contains_iff_mem.mpr hf
+  unfold mkF
+  rw [this]
+  exact C02_monotone r rs h
+
 /-- **C02 after any seeks.**  The same for every script of `Next`/`Seek` calls: the values a
     reader observes up to the first `ValNone` never decrease. -/
 theorem C02_seek (r : List Sample) (rs : List (List Sample)) (cs : List Call)
@@ -287,5 +297,11 @@ theorem C02_fact_adjust :
     Thanos.Facts.ctrAdjustStmt = "it.errAdjust += lastFloatValue - v" ∧
     Thanos.Facts.dedupSwitchCond = "it.useA != lastUseA && isFloatVal" ∧
     Thanos.Facts.dedupAdjustCalls = ["it.a.adjustAtValue", "it.b.adjustAtValue"] := by decide
+
+/-- the counter functions of the model are exactly the names `isCounter` accepts -/
+theorem C02_fact_counter_funcs :
+    Thanos.Facts.dedupCounterFuncs = counterFuncs ∧
+    Thanos.Facts.dedupCounterReturns =
+      ["f == \"increase\" || f == \"rate\" || f == \"irate\" || f == \"resets\""] := by decide
 
 end Thanos.Dedup
